@@ -48,6 +48,22 @@ def build():
     add("hq_level1", enc(2, level=Levels(1)), "level 1 (relaxed value table): pictures only", slices=(2, 1), relaxed_levels=True)
     add("hq_level1_frag", enc(1, level=Levels(1), fragment_slice_count=1), "level 1 (relaxed value table): fragments only", slices=(2, 1), relaxed_levels=True)
     add("hq_level66", enc(2, level=Levels(66)), "level 66 pattern (sequence_header high_quality_picture)* end_of_sequence", slices=(2, 1), relaxed_levels=True)
+    # pictures coded under major_version 3 (extended transform parameters present) without any feature that needs it:
+    # individually valid data units, the stream as a whole is rejected (MajorVersionTooHigh)
+    def enc_v3(**over):
+        import io as _io
+        from copy import deepcopy
+        from vc2_conformance.encoder import make_sequence
+        from vc2_conformance.bitstream import Stream, autofill_and_serialise_stream
+        cf = minimal_codec_features(**over)
+        seq = make_sequence(cf, deepcopy(make_pictures(cf, 2)))
+        seq["data_units"][0]["sequence_header"]["parse_parameters"]["major_version"] = 3
+        f = _io.BytesIO()
+        autofill_and_serialise_stream(f, Stream(sequences=[seq]))
+        return f.getvalue()
+
+    add("hq_v3_pics", enc_v3(), "HQ pictures coded under an explicit major_version 3", slices=(2, 1), expect="MajorVersionTooHigh")
+    add("ld_v3_pics", enc_v3(profile=Profiles.low_delay, picture_bytes=16), "LD pictures coded under an explicit major_version 3", slices=(2, 1), expect="MajorVersionTooHigh")
     # hand-assembled: padding / auxiliary data with non-empty payloads, two sequences
     base = out["hq_padaux"][0]
     units = data_unit_offsets(base)
@@ -71,13 +87,14 @@ def main():
     index = {}
     for name, (data, desc, meta) in sorted(fx.items()):
         v, pics = decode(data)
-        assert v == "ok", (name, v)
+        exp = meta.get("expect", "ok")
+        assert (v == "ok") if exp == "ok" else type(v).__name__ == exp, (name, v)
         open(os.path.join(d, name + ".bin"), "wb").write(data)
         index[name] = {
             "description": desc,
             "sha256": hashlib.sha256(data).hexdigest(),
             "length": len(data),
-            "expect": "ok",
+            "expect": exp,
             "pictures": len(pics),
             "units": [list(u) for u in data_unit_offsets_multi(data)],
         }
